@@ -514,11 +514,20 @@ structure SdOut where
   rows : Nat
   cols : Nat
   clust : Nat
+  /-- `n_bits` of the header strings (8 when absent): 4 = two weights per byte -/
+  bits : Nat
   /-- file offset of `mixw[0][0]` -/
   dataOff : Nat
   /-- `s3f->ptr` after the last row -/
   endPtr : Nat
 deriving Repr, DecidableEq
+
+/-- bytes of one row of `cols` weights: `int step = c; if (n_bits == 4) step = (step + 1) / 2;` -/
+def sdStep (bits cols : Nat) : Nat := if bits = 4 then (cols + 1) / 2 else cols
+
+/-- file offset of the row pointer `(*out_mixw)[n][i]` (`n < n_feat`, `i < rows`): the rows are laid out
+feature-major, `step` bytes apart, starting at `dataOff` -/
+def SdOut.rowOff (o : SdOut) (n i : Nat) : Nat := o.dataOff + (n * o.rows + i) * sdStep o.bits o.cols
 
 /-- the title length "is extremely bogus": native or byte-swapped value in 1..999 decides `do_swap` -/
 def sdTitleLen (s : S) (t : Nat) : Res (S × Nat) :=
@@ -565,7 +574,7 @@ def sendumpPlan (f : File) (gFeat gDensity mdefSen : Nat) : Res SdOut := do
   let step := if h.nBits = 4 then (c.toNat + 1) / 2 else c.toNat
   let dataOff := s.ptr
   let s ← sdRows step (gFeat * gDensity) s
-  .ok { rows := gDensity, cols := c.toNat, clust := nClust, dataOff, endPtr := s.ptr }
+  .ok { rows := gDensity, cols := c.toNat, clust := nClust, bits := h.nBits.toNat, dataOff, endPtr := s.ptr }
 
 /-! ### `read_mixw` (ptm_mgau.c:611-690 with D19g) -/
 
